@@ -45,9 +45,34 @@ func c02Side(r *rand.Rand, set []int, layout string) spec.C02Side {
 
 func c02Gen(r *rand.Rand, tier string) []spec.Case {
 	var out []spec.Case
+	// wide: version numbers with different digit counts (a comparison of their decimal strings orders them
+	// differently from their values)
+	wideOf := []int{2, 9, 10, 11, 100}
 	add := func(kind string, h, p []int, hl, pl string, env string) {
 		proto := map[string]string{}
 		mode := r.Intn(3) // all netrpc | all grpc | mixed by version
+		if strings.HasPrefix(kind, "wide") {
+			mp := func(in []int) (out []int) {
+				for _, v := range in {
+					out = append(out, wideOf[v])
+				}
+				return
+			}
+			h, p = mp(h), mp(p)
+			for _, v := range wideOf {
+				switch mode {
+				case 0:
+					proto[strconv.Itoa(v)] = "netrpc"
+				case 1:
+					proto[strconv.Itoa(v)] = "grpc"
+				default:
+					proto[strconv.Itoa(v)] = pick(r, []string{"netrpc", "grpc"})
+				}
+			}
+			c := spec.C02Case{Host: c02Side(r, h, hl), Plugin: c02Side(r, p, pl), Proto: proto, EnvRaw: env}
+			out = append(out, spec.Case{Kind: kind, P: spec.MustJSON(c)})
+			return
+		}
 		for v := 0; v < 5; v++ {
 			switch mode {
 			case 0:
@@ -155,6 +180,11 @@ func c02Gen(r *rand.Rand, tier string) []spec.Case {
 		}
 		relaunch(600)
 		overlap(300)
+		for hm := 1; hm < 32; hm++ {
+			for pm := 1; pm < 32; pm++ {
+				add("wide-pair", subsetOf(hm), subsetOf(pm), pick(r, layouts), pick(r, layouts), "")
+			}
+		}
 		return out
 	}
 	// quick: diagonals, then seeded pairs biased to |H ∩ P| >= 2
@@ -185,6 +215,13 @@ func c02Gen(r *rand.Rand, tier string) []spec.Case {
 	}
 	relaunch(50)
 	overlap(18)
+	for i := 0; i < 40; i++ {
+		hm, pm := 1+r.Intn(31), 1+r.Intn(31)
+		for tries := 0; tries < 20 && len(subsetOf(hm&pm)) < 2 && i%4 != 3; tries++ {
+			hm, pm = 1+r.Intn(31), 1+r.Intn(31)
+		}
+		add("wide-pair", subsetOf(hm), subsetOf(pm), pick(r, layouts), pick(r, layouts), "")
+	}
 	return out
 }
 
@@ -233,6 +270,10 @@ func c02Judge(c spec.Case, evs []spec.Event, d *Death) CaseResult {
 		}
 	}
 	res.Class = fmt.Sprintf("|H|=%d |P|=%d |I|=%d host=%s plugin=%s raw=%v zero=%v", len(H), len(P), nI, lay(p.Host), lay(p.Plugin), p.EnvRaw != "", contains0(H) || contains0(P))
+	if c.Kind == "wide-pair" {
+		res.Class += " wide(2,9,10,11,100)"
+		res.Counters["pairs_with_mixed_digit_counts"]++
+	}
 	res.Sample = map[string]any{"host": H, "plugin": P, "host_layout": lay(p.Host), "plugin_layout": lay(p.Plugin), "negotiated": o.Negotiated, "start_err": trunc(o.StartErr, 80), "plugin_tag": o.PluginTag, "host_tag": o.HostTag, "raw_env": p.EnvRaw, "raw_line": trunc(o.RawLine, 60)}
 	viol := func(key, msg string) {
 		res.Verdict = "violated"
@@ -385,7 +426,7 @@ func init() {
 				r.Inconcl = append(r.Inconcl, fmt.Sprintf("too little observed: %v", r.Counters))
 			}
 		},
-		Rule:        "cases = (host version set, plugin version set) over versions {0..4}, each side laid out through VersionedPlugins, the legacy ProtocolVersion+Plugins pair, or both; per-version wire protocol all net/rpc, all gRPC or mixed; real subprocess per pair. Each set's implementations carry a version tag that the dispensed plugin and the host wrapper report. Half the cases also run the plugin directly with a chosen PLUGIN_PROTOCOL_VERSIONS (normal, unset, trailing comma, invalid entries) to read the raw announced line. Quick: all 31 diagonals + 170 seeded pairs biased to |H ∩ P| >= 2 and to disjoint sets; thorough: exhaustive over all 31x31 subset pairs x 2 layouts. Class = (|H|, |P|, |H∩P|, layouts, raw run, version 0 involved)",
+		Rule:        "cases = (host version set, plugin version set) over versions {0..4} (and, for the wide pairs, over {2,9,10,11,100}: numbers whose decimal strings order differently from their values), each side laid out through VersionedPlugins, the legacy ProtocolVersion+Plugins pair, or both; per-version wire protocol all net/rpc, all gRPC or mixed; real subprocess per pair. Each set's implementations carry a version tag that the dispensed plugin and the host wrapper report. Half the cases also run the plugin directly with a chosen PLUGIN_PROTOCOL_VERSIONS (normal, unset, trailing comma, invalid entries) to read the raw announced line. Quick: all 31 diagonals + 170 seeded pairs biased to |H ∩ P| >= 2 and to disjoint sets; thorough: exhaustive over all 31x31 subset pairs x 2 layouts. Class = (|H|, |P|, |H∩P|, layouts, raw run, version 0 involved)",
 		Assumptions: []string{"sets registered under one version use the same wire protocol on both sides (otherwise nothing could work)", "GRPCServer is configured whenever any plugin-side set is gRPC"},
 	})
 }
